@@ -338,7 +338,9 @@ class ExprMixin:
     """Returns [Res(st, z3 Bool)]."""
     if isinstance(op, (ast.Is, ast.IsNot)):
       if isinstance(a, Abstract) or isinstance(b, Abstract):
-        if isinstance(a, TypeObj) and isinstance(b, TypeObj):
+        if isinstance(a, TypeOf) or isinstance(b, TypeOf):
+          t = self.type_identity(a, b, st, node)
+        elif isinstance(a, TypeObj) and isinstance(b, TypeObj):
           t = z3.BoolVal(a.name == b.name)
         elif isinstance(a, Abstract) != isinstance(b, Abstract):
           t = z3.BoolVal(False)
@@ -373,6 +375,32 @@ class ExprMixin:
           self.unsupp('ordering of objects', node)
         out.append(self.exc_res(st2, 'TypeError', origin=f'compare@{node.lineno}'))
     return out
+
+  def exact_type(self, v, name, st, node):
+    """type(v) is <name> (exact class, no subclasses)."""
+    if name == 'int':
+      return is_VInt(v)
+    if name == 'bool':
+      return is_VBool(v)
+    if name == 'str':
+      return is_VStr(v)
+    if name in CLASSES:
+      return z3.And(is_VRef(v), cls_is(st.heap.cls(ref(v)), name))
+    self.unsupp(f'type(x) is {name}', node)
+
+  def type_identity(self, a, b, st, node):
+    if isinstance(a, TypeOf) and isinstance(b, TypeObj):
+      return self.exact_type(a.val, b.name, st, node)
+    if isinstance(b, TypeOf) and isinstance(a, TypeObj):
+      return self.exact_type(b.val, a.name, st, node)
+    if isinstance(a, TypeOf) and isinstance(b, TypeOf):
+      x, y = a.val, b.val
+      same_tag = z3.Or(z3.And(is_VInt(x), is_VInt(y)), z3.And(is_VBool(x), is_VBool(y)),
+                       z3.And(is_VStr(x), is_VStr(y)), z3.And(is_VNone(x), is_VNone(y)),
+                       z3.And(is_VParam(x), is_VParam(y)),
+                       z3.And(is_VRef(x), is_VRef(y), st.heap.cls(ref(x)) == st.heap.cls(ref(y))))
+      return same_tag
+    self.unsupp('type identity', node)
 
   def contains(self, container, x, st, node):
     """`x in container` -> [Res(st, z3 Bool)]."""
@@ -656,9 +684,21 @@ class ExprMixin:
     return out
 
   # stores ------------------------------------------------------------------
+  def materialize(self, v, st):
+    """An immediate tuple that is stored somewhere becomes a real tuple object."""
+    if isinstance(v, TupleImm):
+      items = []
+      for it in v.items:
+        st, it2 = self.materialize(it, st)
+        items.append(it2)
+      st, r = self.new_list(st, items, 'tuple')
+      return st, VRef(r)
+    return st, v
+
   def store_subscript(self, obj, key, v, st, node):
     if isinstance(obj, Abstract) or isinstance(key, Abstract):
       self.unsupp('subscript store on abstract value', node)
+    st, v = self.materialize(v, st)
     v = self.need_val(v, node)
     outs = []
     for st1, isref in self.fork(st, is_VRef(obj)):
